@@ -336,7 +336,10 @@ def explore(ctx, model, spec):
 def run(ctx):
     lib.standard_obligations(ctx, GEN, TARGETS)
     spec = lib.Driver("C04Spec")
+    stale = [n for n, ok, _d in ctx.obligations if not ok and n.startswith(("translate:", "build:Gen/", "build:Model/"))]
     try:
+        if stale:     # a left-over driver would be a model of some OTHER source text
+            raise lib.HarnessError("model not rebuilt from the current source: " + ", ".join(stale))
         model = lib.Driver("C04")
         ctx.oblige("build:driver-model(C04)", True)
     except lib.HarnessError as e:
@@ -386,5 +389,5 @@ def replay(ctx, data):
     ok, clause = spec.run([call(40, sx(supported), enc_requested(case), enc_value(a) if a[0] != "raised" else "()", enc_value(s))])[0]
     print("case:", case, "\nobserved: answered", a, "session", s)
     if not ok:
-        print("REPRODUCED", SERVER_CLAUSES.get(clause))
+        print("REPRODUCED", data.get("class"), "(" + SERVER_CLAUSES.get(clause, "?") + ")")
     return 0 if ok else 1
